@@ -849,11 +849,19 @@ def pp_stage(ctx, impl, logic):
         strs.append(s)
         lines.append(sexp.dumps(["pp", s_expr(e)]))
         lines.append(sexp.dumps(["parsecond", sexp.enc(s if s is not None else "?")]))
+        lines.append(sexp.dumps(["lexpp", s_expr(e)]))
         ctx.case(("pp", s), nontrivial=e[0] != "bool")
     out = ctx.lean_driver(EXE, lines)
     if out is None or len(out) != len(lines):
         ctx.broken("correspondence:c20:driver", "model driver unavailable (pp stream)")
         out = None
+    else:
+        # the token-level printer of the theorems is the lexed string-level printer
+        bad = [conds[i] for i in range(len(conds)) if out[3 * i + 2] != "T"]
+        ctx.count("lex(pp e) == toks e", len(conds) - len(bad))
+        if bad:
+            ctx.broken("correspondence:c20:toks", "lex (pp e) differs from toks e for %s" % sexp.dumps(s_expr(bad[0])))
+        out = [x for i, x in enumerate(out) if i % 3 != 2]
     ndis = 0
     for i, (e, s) in enumerate(zip(conds, strs)):
         if s is None:
@@ -1126,7 +1134,7 @@ def sem_stage(ctx):
     names = ["a", "b", "c", "d"]
     n = ctx.scale(90, 1500)
     lines, recs = [], []
-    ncheck = 0
+    ncheck = ntimeout = 0
     for i in range(n):
         rich = rng.random() < 0.2
         vs = names[:rng.randint(1, 4)]
@@ -1144,12 +1152,16 @@ def sem_stage(ctx):
         st = mk_const_fun(NatType, nat.zero)
         for k, v in sorted(init.items()):
             st = mk_fun_upd(st, Nat(ord(k) - 97), Nat(v))
+        if ntimeout >= 4:
+            ctx.count("sem:skipped-after-timeouts")
+            continue
         try:
-            with time_limit(20):
+            with time_limit(15):
                 com = P1.parse_com(src)
                 pt = imp.eval_Sem(com, st)
         except Timeout:
             ctx.count("sem:impl-timeout")
+            ntimeout += 1
             continue
         except Exception as e:  # noqa
             ctx.count("sem:impl-fails:" + classify_exc(e))
